@@ -138,6 +138,12 @@ pub fn check(s: &Scn, what: &str) -> Option<(String, String)> {
                 let (dt, da) = pose_err(&pose, &fk_model(x));
                 if dt > DT { return Some((format!("{}: solution {:?} misses the position by {:e} m", name, x, dt), "<= 1 um".into())); }
                 if !five && da > AT { return Some((format!("{}: solution {:?} misses the orientation by {:e} rad", name, x, da), "<= 1 urad".into())); }
+                if five && what == "c01" {
+                    // 5-DOF variants: "position and tool axis only"
+                    let za = pose.rotation * Vector3::z(); let zb = fk_model(x).rotation * Vector3::z();
+                    let ang = za.cross(&zb).norm().atan2(za.dot(&zb));
+                    if ang > 2e-6 { return Some((format!("{}: solution {:?} has the tool axis off by {:e} rad", name, x, ang), "tool axis within 1 urad".into())); }
+                }
                 if *name == "inverse" && six_dof && x.iter().any(|v| v.abs() > PI + 1e-12) { return Some((format!("inverse returned un-normalised {:?}", x), "[-pi, pi]".into())); }
             }
             if what == "c06" && five {
@@ -305,6 +311,7 @@ fn gen(rng: &mut Rng, what: &str, round: usize) -> Scn {
             if round % 6 == 3 { p.a1 = rng.range(-0.5, 0.5); p.a2 = rng.range(-0.5, 0.5); p.b = rng.range(-0.5, 0.5); p.c1 = rng.range(-0.5, 0.5); p.c2 = rng.range(-0.5, 0.5); p.c3 = rng.range(-0.5, 0.5); p.c4 = rng.range(-0.5, 0.5); if rng.below(4) == 0 { p.a2 = 0.0; p.c3 = 0.0; } }
         }
         "c01" => {
+            if round % 7 == 3 { p.c4 = 0.0; }     // tool point in the wrist centre: the 5-DOF position check cannot see the wrist angles
             match round % 5 {
                 0 => { // almost wrist-singular, previous splits J4/J6 differently
                     let e = [4e-6, 1e-5, 3e-5, 1e-4][rng.below(4)];
